@@ -20,7 +20,7 @@ EXTRA = {
  'C02-short-write-cursor-reset': ['C15'], 'C02-async-unlocked-ack': ['C06'], 'C09-flush-drops-early-reply': ['C10', 'C04'],
  'C16-sync-auth-token-check-hoisted': ['C05'], 'C09-store-open-streams-half-rekeyed': ['C06', 'C01'], 'C15-send-lock-wait-unchecked': ['C14'], 'C15-async-shared-header-buffer': ['C06'], 'C18-async-read-remaining-from-last-fragment': ['C03'], 'C02-auth-pubkey-text-length': ['C05'], 'C18-sync-write-reports-full-length': ['C15'],
 }
-PRIMARY_OVERRIDE = {'C11-connect-handshake-cmds-shared': ['C05', 'C13'], 'C08-short-write-cursor-rebased': ['C15'], 'C09-short-write-offset-not-accumulated': ['C15'], 'C12-tcp-stale-socket-after-reset': ['C18'], 'C12-async-tcp-close-raises-after-reset': ['C18'], 'C04-store-recheck-outside-transport-lock': ['C06'], 'C06-local-id-returned-on-failed-open': ['C14'], 'C18-sync-pending-header-survives-reconnect': ['C12'], 'C02-close-confirm-timeout-ignored': ['C15'], 'C15-async-tcp-timeout-reports-partial': ['C18', 'C15'], 'C04-header-only-send-skips-transport-lock': ['C06'], 'C18-sync-fragment-deadline-uses-transport-timeout': ['C03'], 'C07-partial-write-offset-not-accumulated': ['C15', 'C02'], 'C09-payloadless-send-skips-transport-lock': ['C06'], 'C03-pending-header-survives-reconnect': ['C12'], 'C01-open-local-id-read-after-unlock': ['C14', 'C06'], 'C02-send-retry-after-write-timeout': ['C15'], 'C16-sync-tcp-short-send-reported-full': ['C18', 'C15'], 'C14-shared-header-scratch-buffer': ['C02'], 'C15-lock-yield-between-partial-writes': ['C06'], 'C18-async-auth-wait-timeout-clamped': ['C05'], 'C08-store-recheck-after-device-read': ['C06'], 'C09-store-check-outside-transport-lock': ['C06'], 'C01-store-check-outside-transport-lock': ['C06'], 'C04-local-id-read-outside-lock': ['C14'], 'C02-async-unlocked-ack': ['C06']}
+PRIMARY_OVERRIDE = {'C07-async-send-lock-split-header-payload': ['C06'], 'C11-tcp-bulk-read-fills-request': ['C18'], 'C11-connect-handshake-cmds-shared': ['C05', 'C13'], 'C08-short-write-cursor-rebased': ['C15'], 'C09-short-write-offset-not-accumulated': ['C15'], 'C12-tcp-stale-socket-after-reset': ['C18'], 'C12-async-tcp-close-raises-after-reset': ['C18'], 'C04-store-recheck-outside-transport-lock': ['C06'], 'C06-local-id-returned-on-failed-open': ['C14'], 'C18-sync-pending-header-survives-reconnect': ['C12'], 'C02-close-confirm-timeout-ignored': ['C15'], 'C15-async-tcp-timeout-reports-partial': ['C18', 'C15'], 'C04-header-only-send-skips-transport-lock': ['C06'], 'C18-sync-fragment-deadline-uses-transport-timeout': ['C03'], 'C07-partial-write-offset-not-accumulated': ['C15', 'C02'], 'C09-payloadless-send-skips-transport-lock': ['C06'], 'C03-pending-header-survives-reconnect': ['C12'], 'C01-open-local-id-read-after-unlock': ['C14', 'C06'], 'C02-send-retry-after-write-timeout': ['C15'], 'C16-sync-tcp-short-send-reported-full': ['C18', 'C15'], 'C14-shared-header-scratch-buffer': ['C02'], 'C15-lock-yield-between-partial-writes': ['C06'], 'C18-async-auth-wait-timeout-clamped': ['C05'], 'C08-store-recheck-after-device-read': ['C06'], 'C09-store-check-outside-transport-lock': ['C06'], 'C01-store-check-outside-transport-lock': ['C06'], 'C04-local-id-read-outside-lock': ['C14'], 'C02-async-unlocked-ack': ['C06']}
 NO_TESTS = set()
 
 
